@@ -6,6 +6,7 @@ import (
 	"bytes"
 	"crypto/sha256"
 
+	"github.com/codenotary/immudb/embedded/appendable"
 	"github.com/codenotary/immudb/embedded/cache"
 	"github.com/codenotary/immudb/embedded/verifrt"
 )
@@ -95,4 +96,92 @@ func VerifH_TxReaderChain() {
 	} else {
 		verifrt.Assert(h2.PrevAlh == h1.Alh(), "ascending scan: tx chains to the previous one")
 	}
+}
+
+// VerifH_TxRecordCorruption: the stored bytes of a committed transaction are replaced by
+// ARBITRARY bytes (every single- and multi-bit alteration at once, lengths n). If the
+// integrity-checked tx reader accepts them and the parsed header hashes to the Alh the rest of
+// the system pins for this transaction (next record's PrevAlh, hash-tree leaf, commit log,
+// client state), then what it returns is the original content: header fields, entry keys,
+// metadata and value digests. Never a panic. Original: header version `version`, one entry
+// with a 2-byte key. Stated bounds on the corrupted record: tx metadata block <= M bytes, entry
+// metadata <= 1 byte (longer blocks are the subject of the metadata decoders in C16).
+func VerifH_TxRecordCorruption() { verifTxRecord(true) }
+
+// VerifH_TxRecordAnyLayout: the same obligation when the length fields of the corrupted record
+// are arbitrary too (within the stated bounds).
+func VerifH_TxRecordAnyLayout() { verifTxRecord(false) }
+
+func verifTxRecord(fixedLayout bool) {
+	version, n := verifrt.Param("version"), verifrt.Param("n")
+	orig := NewTx(1, 4)
+	orig.header = verifSymHeader(version, 0)
+	orig.header.NEntries = 1
+	orig.header.Metadata = nil
+	oe := orig.entries[0]
+	oe.setKey(verifrt.Bytes("o.key", 2))
+	oe.hVal = verifrt.Digest("o.hVal")
+	verifrt.Assume(orig.BuildHashTree() == nil)
+	pinned := orig.header.Alh()
+
+	b := verifrt.Bytes("record", n)
+	// stated bounds on the corrupted record: tx metadata block <= M bytes, entry metadata block
+	// <= 1 byte, keys <= 2 bytes, at most one entry (a record declaring more entries than the reader's buffer is
+	// rejected up front)
+	// the version field of the CORRUPTED record (bytes 88,89) is itself arbitrary; it is split
+	// into three regimes by the shape parameter cver: 0, 1, or anything else
+	cver := verifrt.Param("cver")
+	verifrt.Assume(n >= 92)
+	cv := int(b[88])<<8 | int(b[89])
+	eoff := 92 // offset of the first entry's metadata length in a v0 record
+	switch cver {
+	case 0:
+		verifrt.Assume(cv == 0)
+	case 1:
+		verifrt.Assume(cv == 1)
+		mdLen := int(b[90])<<8 | int(b[91])
+		verifrt.Assume(mdLen <= verifrt.Param("M"))
+		eoff = 92 + mdLen + 4
+	default:
+		verifrt.Assume(cv >= 2)
+	}
+	if eoff+2 <= n {
+		kvmdLen := int(b[eoff])<<8 | int(b[eoff+1])
+		verifrt.Assume(kvmdLen <= 1)
+	}
+	if fixedLayout {
+		// every content byte is arbitrary; the length fields are those of the original
+		// record (no tx metadata, one entry without metadata, 2-byte key)
+		verifrt.Assume(cver == version && eoff+4 <= n)
+		// (the length fields are overwritten with constants rather than assumed equal to them,
+		// so that every read offset is a constant term)
+		b[88], b[89] = 0, byte(cver)
+		if cver == 1 {
+			b[90], b[91], b[92], b[93], b[94], b[95] = 0, 0, 0, 0, 0, 1
+		} else {
+			b[90], b[91] = 0, 1
+		}
+		b[eoff], b[eoff+1], b[eoff+2], b[eoff+3] = 0, 0, 0, 2
+	}
+	r := appendable.NewReaderFrom(&verifMemApp{b: b}, 0, n+8)
+	tx := NewTx(1, 2) // keys longer than 2 bytes are rejected by the reader
+	err := tx.readFrom(r, false)
+	if err != nil {
+		verifrt.Reach("rejected")
+		return
+	}
+	if tx.header.Alh() != pinned {
+		return // not the transaction the chain pins at this position: detected by the chain checks
+	}
+	if fixedLayout {
+		verifrt.Reach("accepted with the pinned Alh")
+	}
+	h, o := tx.header, orig.header
+	verifrt.Assert(h.ID == o.ID && h.Ts == o.Ts && h.BlTxID == o.BlTxID && h.BlRoot == o.BlRoot && h.PrevAlh == o.PrevAlh, "header fields are the original ones")
+	verifrt.Assert(h.Version == o.Version && h.NEntries == 1 && h.Eh == o.Eh, "version, entry count and Eh are the original ones")
+	verifrt.Assert(len(verifMDBytes(h.Metadata)) == 0, "tx metadata is the original (empty) one")
+	e := tx.entries[0]
+	verifrt.Assert(bytes.Equal(e.key(), oe.key()), "entry key is the original one")
+	verifrt.Assert(e.hVal == oe.hVal, "entry value digest is the original one")
+	verifrt.Assert(len(verifKVMDBytes(e.md)) == 0, "entry metadata is the original (empty) one")
 }
